@@ -913,6 +913,8 @@ static void construct_f64(int64_t sample_id, double * y, int64_t count, double m
 static int32_t reconstruct_omitted_chunk(struct jls_core_s * self, uint16_t signal_id, int64_t start_sample_id) {
     struct jls_signal_def_s * signal_def = &self->signal_info[signal_id].signal_def;
     uint8_t sample_size_bits = jls_datatype_parse_size(signal_def->data_type);
+    // base type and size: the fixed-point position does not change the stored bits
+    const uint32_t data_type = signal_def->data_type & 0xffff;
 
     struct jls_fsr_index_s * r = (struct jls_fsr_index_s *) self->rd_index->start;
     int64_t t_index = (start_sample_id - r->header.timestamp) / signal_def->samples_per_data;
@@ -965,27 +967,27 @@ static int32_t reconstruct_omitted_chunk(struct jls_core_s * self, uint16_t sign
             std64 = s32->data[s_index][JLS_SUMMARY_FSR_STD];
         }
 
-        if (signal_def->data_type == JLS_DATATYPE_F32) {
+        if (data_type == JLS_DATATYPE_F32) {
             construct_f32(sample_id + k * sz_samples, (float *) d, sz_samples, mu32, std32);
-        } else if (signal_def->data_type == JLS_DATATYPE_F64) {
+        } else if (data_type == JLS_DATATYPE_F64) {
             construct_f64(sample_id + k * sz_samples, (double *) d, sz_samples, mu64, std64);
-        } else if (signal_def->data_type == JLS_DATATYPE_U8) {
+        } else if (data_type == JLS_DATATYPE_U8) {
             uint8_t value = (uint8_t) roundf(mu32);
             memset(d, value, sz_bytes);
-        } else if (signal_def->data_type == JLS_DATATYPE_U4) {
+        } else if (data_type == JLS_DATATYPE_U4) {
             uint8_t value = ((uint8_t) roundf(mu32)) & 0x0F;
             value |= (value << 4);
             memset(d, value, sz_bytes);
-        } else if (signal_def->data_type == JLS_DATATYPE_U1) {
+        } else if (data_type == JLS_DATATYPE_U1) {
             uint8_t value = ((uint8_t) roundf(mu32)) & 0x01;
             if (value) {
                 value = 0xff;
             }
             memset(d, value, sz_bytes);
-        } else if (signal_def->data_type == JLS_DATATYPE_I8) {
+        } else if (data_type == JLS_DATATYPE_I8) {
             int8_t value = (int8_t) roundf(mu32);
             memset(d, (uint8_t) value, sz_bytes);
-        } else if (signal_def->data_type == JLS_DATATYPE_I4) {
+        } else if (data_type == JLS_DATATYPE_I4) {
             uint8_t value = ((uint8_t) ((int8_t) roundf(mu32))) & 0x0F;
             value |= (value << 4);
             memset(d, value, sz_bytes);
